@@ -1012,9 +1012,32 @@ func (ex *Exec) callExtern(st *State, call *ast.CallExpr, callee *types.Func, re
 	}
 	if c := ex.P.Externs[key]; c != nil {
 		ex.assumedExt[key] = true
-		return ex.applyContract(st, call, c, sig, key, recv, args, nil)
+		rs := ex.applyContract(st, call, c, sig, key, recv, args, nil)
+		if externClass(callee) == "deserialiser" {
+			ms := newModSet()
+			ex.modExternDefault(ms, callee, call)
+			ms.vars = map[*types.Var]bool{}
+			ex.havocFor(st, ms, "deser."+sanitize(key))
+		}
+		return rs
 	}
-	ex.assumedExt[key+" (default: total, heap-neutral, typed result)"] = true
+	cls := externClass(callee)
+	switch cls {
+	case "pure":
+		ex.assumedExt[key+" (default: total, does not write through its arguments, typed result)"] = true
+	case "bytewriter":
+		ex.assumedExt[key+" (default: total, writes only the elements of its slice arguments)"] = true
+	case "deserialiser":
+		ex.assumedExt[key+" (default: total, may write everything reachable by type from its arguments)"] = true
+	default:
+		ex.assumedExt[key+" (default: total, may write slice arguments' elements and everything reachable by type from pointer arguments)"] = true
+	}
+	if cls != "pure" {
+		ms := newModSet()
+		ex.modExternDefault(ms, callee, call)
+		ms.vars = map[*types.Var]bool{}
+		ex.havocFor(st, ms, "ext."+sanitize(key))
+	}
 	vs := ex.havocResults(st, sig, sanitize(key))
 	// documented error-returning constructors
 	return vs
